@@ -121,6 +121,20 @@ class ExcelInPython:
             left_operand = ''
         elif isinstance(right_operand, self.EmptyCell) and isinstance(left_operand, str):
             right_operand = ''
+        # ... а рядом с логическим значением - как FALSE
+        elif isinstance(left_operand, self.EmptyCell) and isinstance(right_operand, bool):
+            left_operand = False
+        elif isinstance(right_operand, self.EmptyCell) and isinstance(left_operand, bool):
+            right_operand = False
+
+        # значения разных видов упорядочены по виду, как в Excel: любое число < любого текста < FALSE < TRUE;
+        # тексты сравниваются без учёта регистра (тексты, записывающие числа, ниже по-прежнему сравниваются как числа)
+        kinds = [3 if isinstance(i, bool) else 2 if isinstance(i, str) else 1 if isinstance(i, (int, float)) else None
+                 for i in (left_operand, right_operand)]
+        if None not in kinds and kinds[0] != kinds[1]:
+            return self._by_operator(operator, kinds[0], kinds[1])
+        if kinds == [2, 2]:
+            left_operand, right_operand = left_operand.lower(), right_operand.lower()
 
         try:
             # целочисленное сравнение допустимо только если приведение к int ничего не отбрасывает
